@@ -18,6 +18,69 @@ use std::time::Instant;
 
 pub const VERIF_DIR: &str = env!("CARGO_MANIFEST_DIR");
 
+/// The configuration of retrofire-core this binary was built against ("std", or a twin build: "libm" / "mm").
+pub const BUILD_CONFIG: &str = if cfg!(feature = "cfg-std") {
+    "std"
+} else if cfg!(feature = "twin-libm") {
+    "libm"
+} else if cfg!(feature = "twin-mm") {
+    "mm"
+} else {
+    "none"
+};
+
+/// Twin builds (harness compiled against another feature configuration of the repository) and the properties whose
+/// checks run in them as well. libm is as accurate as std, so every check that compiles there must pass unchanged;
+/// micromath's documented approximation error (C20's business) exceeds the tolerances of the checks that depend on
+/// trigonometry, square roots or normalisation, so only the checks that are independent of those run under mm.
+pub const TWINS: [(&str, &[&str]); 2] = [
+    ("libm", &["C01", "C02", "C03", "C04", "C05", "C06", "C07", "C08", "C09", "C11", "C12", "C15", "C16", "C17", "C18", "C19"]),
+    ("mm", &["C01", "C02", "C03", "C04", "C05", "C06", "C07", "C11", "C12", "C16", "C17"]),
+];
+
+pub fn twin_target_dir(cfg: &str) -> PathBuf {
+    PathBuf::from(VERIF_DIR).join(format!("target-{cfg}"))
+}
+
+/// Builds the harness against configuration `cfg` (own target directory). Err = build failed.
+pub fn build_twin(cfg: &str) -> Result<PathBuf, String> {
+    let td = twin_target_dir(cfg);
+    if let Ok(h) = std::env::var("RFVERIF_REPO_HASH") {
+        let f = td.join(".repo_hash");
+        if let Ok(old) = std::fs::read_to_string(&f) {
+            if old.trim() != h.trim() {
+                let _ = std::process::Command::new("cargo")
+                    .args(["clean", "--release", "--manifest-path"])
+                    .arg(PathBuf::from(VERIF_DIR).join("Cargo.toml"))
+                    .arg("--target-dir")
+                    .arg(&td)
+                    .args(["-p", "retrofire-core", "-p", "retrofire-geom"])
+                    .output();
+            }
+        }
+    }
+    let out = std::process::Command::new("cargo")
+        .args(["build", "--release", "--no-default-features", "--features"])
+        .arg(format!("twin-{cfg}"))
+        .arg("--manifest-path")
+        .arg(PathBuf::from(VERIF_DIR).join("Cargo.toml"))
+        .arg("--target-dir")
+        .arg(&td)
+        .env("CARGO_NET_OFFLINE", "true")
+        .current_dir(verif_root())
+        .output()
+        .map_err(|e| format!("cannot run cargo: {e}"))?;
+    if !out.status.success() {
+        let err = String::from_utf8_lossy(&out.stderr);
+        let tail: Vec<&str> = err.lines().filter(|l| !l.starts_with("WARNING conda")).rev().take(25).collect();
+        return Err(tail.into_iter().rev().collect::<Vec<_>>().join("\n"));
+    }
+    if let Ok(h) = std::env::var("RFVERIF_REPO_HASH") {
+        let _ = std::fs::write(td.join(".repo_hash"), h);
+    }
+    Ok(td.join("release").join("rfverif"))
+}
+
 pub fn verif_root() -> PathBuf {
     // harness/ lives directly under the verif root
     let p = PathBuf::from(VERIF_DIR);
@@ -393,6 +456,7 @@ impl Ctx {
             "message": fail.msg,
             "seed": self.seed,
             "tier": self.tier.name(),
+            "build": BUILD_CONFIG,
             "case": case_v,
         });
         let text = serde_json::to_string_pretty(&body).unwrap();
@@ -657,7 +721,8 @@ impl Ctx {
             "wall_s": (self.start.elapsed().as_secs_f64() * 1000.0).round() / 1000.0,
             "violations": self.violations.len(),
         });
-        let dir = verif_root().join("evidence");
+        // child runs (twin builds) write their evidence where the parent asks, not over the property's evidence file
+        let dir = std::env::var_os("RFVERIF_EVIDENCE_DIR").map(PathBuf::from).unwrap_or_else(|| verif_root().join("evidence"));
         let _ = std::fs::create_dir_all(&dir);
         let path = dir.join(format!("{}.json", self.prop));
         std::fs::write(&path, serde_json::to_string_pretty(&ev).unwrap()).expect("write evidence");
